@@ -144,6 +144,12 @@ func DecodeHEVCDecConfRec(data []byte) (DecConfRec, error) {
 		for i := 0; i < numNalus; i++ {
 			naluLength := int(sr.ReadUint16())
 			array.Nalus = append(array.Nalus, sr.ReadBytes(naluLength))
+			if sr.AccError() != nil { // data exhausted: don't loop on for the announced counts
+				return hdcr, sr.AccError()
+			}
+		}
+		if sr.AccError() != nil {
+			return hdcr, sr.AccError()
 		}
 		hdcr.NaluArrays = append(hdcr.NaluArrays, array)
 	}
